@@ -302,6 +302,27 @@ Theorem closest_k_insertion_order_irrelevant : forall H self_peer k_value table 
   closest_k_value_local_peers H self_peer k_value table = closest_k_value_local_peers H self_peer k_value table'.
 Proof. intros H self_peer k_value table table' d. exact (closest_k_perm_invariant H self_peer k_value table table'). Qed.
 
+(* ---- Node::respond_x_closest_record_proof (storage challenge answers) *)
+
+Theorem x_closest_chunks_spec : forall H target difficulty records,
+  let d := fun k => distance H target (from_record_key k) in
+  let chunks := map fst (filter is_chunk records) in
+  let out := x_closest_chunks H target difficulty records in
+  out = firstn (N.to_nat (N.min difficulty CLOSE_GROUP_SIZE)) (sort_by d chunks) /\
+  sorted_by d out /\
+  N.of_nat (List.length out) = N.min (N.min difficulty CLOSE_GROUP_SIZE) (N.of_nat (List.length chunks)) /\
+  (forall k, In k out -> In (k, 0) records) /\
+  (exists rest, Permutation (out ++ rest) chunks /\ forall x y, In x out -> In y rest -> d x <= d y).
+Proof. intros H target difficulty records. exact (x_closest_chunks_spec_lemma H target difficulty records). Qed.
+
+(* filter-then-take, not take-then-filter: the swapped order is refuted *)
+Theorem x_closest_chunks_take_then_filter_refuted :
+  exists target difficulty records,
+    take_then_filter_chunks sha256 target difficulty records <> x_closest_chunks sha256 target difficulty records /\
+    (List.length (take_then_filter_chunks sha256 target difficulty records) <
+     List.length (x_closest_chunks sha256 target difficulty records))%nat.
+Proof. exact take_then_filter_refuted_lemma. Qed.
+
 (* ---- Node::calculate_get_closest_peers *)
 
 Theorem closest_peers_spec : forall H, (forall x, H x < 2 ^ 256) ->
